@@ -1,4 +1,5 @@
 import IceTie.AgentSwitch
+import IceProofs.AgentC03Own
 /-!
 # C03 — only validated and nominated pairs are ever selected
 
@@ -318,6 +319,128 @@ example : (run lite0 (evsCld.take 3)).selected = none ∧ (run lite0 (evsCld.tak
     (step (run lite0 (evsCld.take 3)) (.inbound 1 16 32 (ucReq 1001))).1.selected = some 1 ∧
     (∀ p ∈ (step (run lite0 (evsCld.take 3)) (.inbound 1 16 32 (ucReq 1001))).1.checklist, p.gResp = false) := by
   decide
+
+/-! ## A check of its own (fix of F17)
+
+Since the fix of F17 a pending transaction records the address of the local candidate its request left from
+(`Pending.src`, Go: `bindingRequest.source`) and a success response is accepted only on a local candidate with
+that address (`responseSymmetric`, tie: `C02_symmetry_code`).  Hence a pair is validated only by the answer
+to a check sent on ITS OWN addresses. -/
+
+/-- local candidates 16 and 32, remote 176: the scenario of `corpus/C03/agent.ops` (F17) -/
+def lcB : Cand := { uid := 0, ty := 1, net := 0, addr := 32, prio := 1694498815 }
+def rcF : Cand := { uid := 0, ty := 1, net := 0, addr := 176, prio := 1862270975 }
+/-- controlling agent; pair 2 (32>176) is validated (response to tid 4 on local 32) and nominated at the tick:
+the USE-CANDIDATE check tid 6 leaves from 32 to 176 -/
+def evsOwn : List Ev :=
+  [.addLocal 0 lc, .addLocal 0 lcB, .addRemote 0 rcF, .start 0 true "R" "rp",
+   .inbound 1 32 176 (okResp 4), .advance 300000000]
+
+example : Fresh full0 := ⟨⟨rfl, rfl, rfl, rfl⟩, rfl, rfl⟩
+example : (run full0 evsOwn).pending.map (fun pd => (pd.tid, pd.src, pd.dest, pd.useCand))
+    = [(2, 16, 176, false), (6, 32, 176, true)] := by decide
+example : requestLog full0 evsOwn = [(2, 16, 176), (4, 32, 176), (6, 32, 176)] := by decide
+
+/-- **Every pending transaction is a request of the agent's own, sent from the recorded source to the recorded
+destination** (K3).  Fresh agent (nothing listed, nothing pending), ANY history: for every pending entry `pd`
+of the reached state some step of the history emitted a Binding request datagram with transaction id `pd.tid`
+from address `pd.src` to address `pd.dest`. -/
+theorem C03_pending_is_own_request (a0 : Agent) (evs : List Ev) (h0 : Fresh a0)
+    (pd : Pending) (hpd : pd ∈ (run a0 evs).pending) :
+    ∃ k, k < evs.length ∧ ∃ e m, evs[k]? = some e ∧
+      Out.dgram pd.src pd.dest m ∈ (step (run a0 (evs.take k)) e).2 ∧ m.cls = 0 ∧ m.tid = pd.tid :=
+  mem_requestLog ((own_run h0 evs).pending_logged hpd)
+
+/-- **Every validated pair answered a check of its own — invariant form.**  Fresh agent (lite or full), ANY
+history (the peer is an arbitrary source of messages, on any local candidate): every listed pair with `gResp`
+(a transaction-matched authenticated success response arrived on it) had a Binding request of this agent
+emitted, by some step of the history, from the address of ITS local candidate to the address of ITS remote
+candidate.  (Both candidates exist for every listed pair of a non-closed agent: `C06_pair_ends_current`.)
+Before the fix the witness below (`C03_foreign_response_ignored`) selected pair 1 without any request from 16
+to 176 having been answered. -/
+theorem C03_validated_by_own_check_inv (a0 : Agent) (evs : List Ev) (h0 : Fresh a0)
+    (p : Pair) (hp : p ∈ (run a0 evs).checklist) (hg : p.gResp = true)
+    (l r : Cand) (hl : (run a0 evs).localOf p.l = some l) (hr : (run a0 evs).remoteOf p.r = some r) :
+    ∃ k, k < evs.length ∧ ∃ e m, evs[k]? = some e ∧
+      Out.dgram l.addr r.addr m ∈ (step (run a0 (evs.take k)) e).2 ∧ m.cls = 0 := by
+  obtain ⟨tid, ht⟩ := (own_run h0 evs).gResp_logged hp hg hl hr
+  obtain ⟨k, hk, e, m, he, hm, hc, _⟩ := mem_requestLog ht
+  exact ⟨k, hk, e, m, he, hm, hc⟩
+
+/-- … so on a FULL agent every valid pair — in particular the selected pair — answered a check of its own:
+it has `gResp` (`C03_invariant`) and a Binding request was sent from its local to its remote address. -/
+theorem C03_selected_by_own_check (a0 : Agent) (evs : List Ev) (h0 : Fresh a0) (hfull : a0.cfg.lite = false) :
+    (∀ p ∈ (run a0 evs).checklist, p.state = .succeeded → p.gResp = true) ∧
+    (∀ id, (run a0 evs).selected = some id → ∃ sp, (run a0 evs).pairById id = some sp ∧ sp.gResp = true) ∧
+    (∀ p ∈ (run a0 evs).checklist, p.state = .succeeded →
+      ∀ l r, (run a0 evs).localOf p.l = some l → (run a0 evs).remoteOf p.r = some r →
+      ∃ k, k < evs.length ∧ ∃ e m, evs[k]? = some e ∧
+        Out.dgram l.addr r.addr m ∈ (step (run a0 (evs.take k)) e).2 ∧ m.cls = 0) := by
+  have hi : Inv3 (run a0 evs) := Inv3_reachable ⟨a0, evs, h0.1, rfl⟩
+  have hlite : (run a0 evs).cfg.lite = false := by
+    have := (own_run h0 evs).lite_eq
+    rw [hfull] at this
+    exact this
+  obtain ⟨hpairs, hsel, _⟩ := C03_invariant_spec _ hi
+  refine ⟨fun p hp hs => (hpairs p hp).1 hlite hs, ?_, ?_⟩
+  · intro id hs
+    obtain ⟨sp, hsp, _, _, hg, _⟩ := hsel id hs
+    refine ⟨sp, hsp, ?_⟩
+    rcases hg with hg | hg
+    · rw [hlite] at hg; cases hg
+    · exact hg
+  · intro p hp hs l r hl hr
+    exact C03_validated_by_own_check_inv a0 evs h0 p hp ((hpairs p hp).1 hlite hs) l r hl hr
+
+/-- **Every validated pair answered a check of its own — step form.**  ANY state `a` (no invariant needed), ANY
+event `e`: if the step newly validates a listed pair `p'` — sets `gResp`, or, on a full agent, sets its state to
+Succeeded, where no pair with that id had it before the step — then
+
+* the event is the arrival of an authenticated (`m.key = remotePwd`) Binding success response `m` on the local
+  candidate `l` (`localByAddr la`) from the address `src` of the known remote candidate `r`;
+* its transaction was pending and unexpired, `pd` is the entry this step consumes (`takePending`), and `pd` passed
+  the symmetry test: sent over `l`'s network type, TO the response's source, FROM the address of the local
+  candidate the response arrived on (`pd.src = l.addr` — the conjunct added by the fix of F17);
+* `p'` is the pair of `(l, r)`: the pre-state pair `p = findPair l r` has `p'`'s id, and its own local and
+  remote candidates `pl`, `pr` have `pl.addr = pd.src` and `pr.addr = pd.dest`: the response answered a request
+  that was sent from THAT pair's local address to THAT pair's remote address.
+
+No other event, timer or forced tick validates a pair (`IceProofs.C03.step_own`, relation `NoNew`). -/
+theorem C03_validated_by_own_check (a : Agent) (e : Ev) (p' : Pair) (hp' : p' ∈ (step a e).1.checklist)
+    (hnew : (p'.gResp = true ∧ ∀ p ∈ a.checklist, p.id = p'.id → p.gResp = false) ∨
+            (a.cfg.lite = false ∧ p'.state = .succeeded ∧ ∀ p ∈ a.checklist, p.id = p'.id → p.state ≠ .succeeded)) :
+    ∃ now la src m l r pd p pl pr,
+      e = .inbound now la src m ∧ m.method = 1 ∧ m.cls = 2 ∧ m.key = some a.remotePwd ∧
+      a.localByAddr la = some l ∧ a.findRemote l.net src = some r ∧
+      (a.takePending now m.tid).2 = some pd ∧ pd ∈ a.pending ∧ pd.tid = m.tid ∧
+      pd.net = l.net ∧ pd.dest = src ∧ pd.src = l.addr ∧
+      a.findPair l r = some p ∧ p.id = p'.id ∧ p ∈ a.checklist ∧
+      a.localOf p.l = some pl ∧ a.remoteOf p.r = some pr ∧ pl.addr = pd.src ∧ pr.addr = pd.dest :=
+  step_validates_own a e p' hp' hnew
+
+-- non-vacuity: the step `.inbound 1 32 176 (okResp 4)` of `evsOwn` newly validates pair 2 (both forms of the
+-- hypothesis), and the entry it consumes was sent from 32 to 176
+example :
+    let a := run full0 (evsOwn.take 4)
+    ∃ p' ∈ (step a (.inbound 1 32 176 (okResp 4))).1.checklist, p'.id = 2 ∧
+      (p'.gResp = true ∧ ∀ p ∈ a.checklist, p.id = p'.id → p.gResp = false) ∧
+      (a.cfg.lite = false ∧ p'.state = .succeeded ∧ ∀ p ∈ a.checklist, p.id = p'.id → p.state ≠ .succeeded) ∧
+      ((a.takePending 1 4).2.map fun pd => (pd.src, pd.dest)) = some (32, 176) := by decide
+
+-- non-vacuity: pair 2 of `evsOwn` is valid, has its ends, and the request from 32 to 176 is the one of step 4
+example : ∃ p ∈ (run full0 evsOwn).checklist, p.id = 2 ∧ p.gResp = true ∧ p.state = .succeeded ∧
+    ((run full0 evsOwn).localOf p.l).map (·.addr) = some 32 ∧
+    ((run full0 evsOwn).remoteOf p.r).map (·.addr) = some 176 := by decide
+
+/-- **The F17 replay on the model** (`corpus/C03/agent.ops`): the response to the USE-CANDIDATE check tid 6, which
+left from local address 32, arriving on local address 16 validates nothing and selects nothing (the
+transaction is consumed); arriving on 32 it selects pair 2.  Before the fix the first case marked pair 1
+(16>176) Succeeded and selected it. -/
+theorem C03_foreign_response_ignored :
+    (step (run full0 evsOwn) (.inbound 300000001 16 176 (okResp 6))).1.selected = none ∧
+    (step (run full0 evsOwn) (.inbound 300000001 16 176 (okResp 6))).1.checklist = (run full0 evsOwn).checklist ∧
+    (step (run full0 evsOwn) (.inbound 300000001 16 176 (okResp 6))).1.pending.map (·.tid) = [2] ∧
+    (step (run full0 evsOwn) (.inbound 300000001 32 176 (okResp 6))).1.selected = some 2 := by decide
 
 /-! ## Tie to the code -/
 
